@@ -92,7 +92,7 @@ func fwdWriteConfig(dir, mode, upstreamHost string) (string, error) {
 		rs.WriteString("  - id: " + r.id + "\n    match:\n      " + r.match + "\n")
 
 		if mode == "proxy" {
-			rs.WriteString("    forward_to:\n      host: " + upstreamHost + "\n      rewrite:\n        scheme: http\n")
+			rs.WriteString("    forward_to:\n      host: \"" + upstreamHost + "\"\n      rewrite:\n        scheme: http\n")
 		}
 
 		rs.WriteString("    execute:\n      - authenticator: anon\n      - finalizer: view\n      - finalizer: tag-" +
@@ -199,7 +199,15 @@ func fwdSetup(c map[string]any) (any, error) {
 			return nil, err
 		}
 
-		fwd.upstream = httptest.NewServer(http.HandlerFunc(fwdUpstreamHandler))
+		uln, err := verifListen("127.0.0.1:0")
+		if err != nil {
+			return nil, err
+		}
+
+		fwd.upstream = httptest.NewUnstartedServer(http.HandlerFunc(fwdUpstreamHandler))
+		_ = fwd.upstream.Listener.Close()
+		fwd.upstream.Listener = uln
+		fwd.upstream.Start()
 		upstreamHost := strings.TrimPrefix(fwd.upstream.URL, "http://")
 
 		for _, mode := range []string{"decision", "proxy"} {
@@ -352,7 +360,7 @@ func fwdOverTCP(srv *http.Server, c map[string]any) (*fwdAnswer, any, error) {
 		listenOn = "[::1]:0"
 	}
 
-	ln, err := net.Listen("tcp", listenOn)
+	ln, err := verifListen(listenOn)
 	if err != nil {
 		return nil, nil, err
 	}
@@ -373,7 +381,7 @@ func fwdOverTCP(srv *http.Server, c map[string]any) (*fwdAnswer, any, error) {
 		return nil, map[string]any{"skip": "dial from " + from + ": " + err.Error()}, nil
 	}
 
-	defer conn.Close()
+	defer verifCloseNow(conn)
 
 	_ = conn.SetDeadline(time.Now().Add(20 * time.Second))
 
